@@ -61,6 +61,11 @@ def main():
         i = args.index("--also")
         extra_checks = args[i + 1].split(",")
         args = args[:i] + args[i + 2:]
+    tier = "quick"
+    if "--tier" in args:
+        i = args.index("--tier")
+        tier = args[i + 1]
+        args = args[:i] + args[i + 2:]
     tag = ""
     if "--tag" in args:
         i = args.index("--tag")
@@ -79,9 +84,9 @@ def main():
         prop = meta.get("property", "")[:3]
         variant = (tag + os.path.basename(src)) if not recheck else os.path.basename(src).split("_", 1)[1]
         if tag:
-            meta["round"] = 2
+            meta["round"] = int(tag[1:]) if tag[1:].isdigit() else 2
         checks = [prop] + [c for c in (extra_checks or []) if c != prop]
-        res = evaluate(src, prop, checks=checks)
+        res = evaluate(src, prop, tier=tier, checks=checks)
         confirmed = (res.get("demo_clean_exit") == 0 and res.get("patch_applies") and not res.get("baseline_tests_missing")
                      and res.get("demo_patched_exit") == 1)
         caught = [p for p, v in res.get("checks", {}).items() if v["rc"] == 1]
@@ -101,6 +106,7 @@ def main():
                 "baseline_tests_still_pass": True,
                 "checks": {p: ("caught" if v["rc"] == 1 else ("missed" if v["rc"] == 0 else f"harness-error rc={v['rc']}")) for p, v in res["checks"].items()},
                 "violation_lines": {p: v["lines"][:2] for p, v in res["checks"].items()},
+                "tier": tier,
             }
             with open(os.path.join(dst, "meta.json"), "w") as f:
                 json.dump(meta, f, indent=1)
